@@ -213,6 +213,10 @@ def parse_call(input_string: str) -> CallDef:
         # Produce a nice error message if the pn string is empty
         if place_notation_str == "":
             exit_with_message("Place notation strings cannot be empty.")
+        # ... or if it isn't place notation at all (otherwise the row generator's constructor would
+        # raise a bare ValueError later on)
+        if not valid_pn(place_notation_str):
+            exit_with_message(f"'{place_notation_str}' is not valid place notation.")
 
         # Insert the new call definition into the dictionary
         if location in parsed_calls:
